@@ -82,3 +82,4 @@ def count(name, lines, ib, stats, meta):
             stats['distinct'].add((opc, cnt, name.split('_')[0], name.rsplit('_', 1)[-1] if name.startswith('disc') else '', b.kv.get('ev')))
             if len(stats['samples']) < 5 and name.startswith('disc_n3'):
                 stats['samples'].append({'scenario': name, 'frame_hex': fr[:120], 'event': b.kv.get('ev')})
+EXPLORE = dict(skip_ops=('set_map', 'set_sess', 'set_enum', 'band_set'), ops=('classify', 'st_add', 'st_remove', 'adv', 'tick'), mtu=False, num={'st_add': {3: (0, 65535), 4: (0, 65535)}, 'adv': {1: (0, 100000)}})
